@@ -23,7 +23,7 @@ from checks.common.cases import explore_cases
 PROP = 'C16'
 LEVEL = 'exploration'
 SHARDS = {'quick': 4, 'thorough': 16}
-BUDGET_S = {'quick': 40, 'thorough': 400}
+BUDGET_S = {'quick': 150, 'thorough': 400}
 RULE = ('(a) traceback texts with 0-12 frames, any subset lacking source lines (first, last, all), paths with '
         'spaces / non-ASCII / <string>, names <module> <lambda> <genexpr>, dotted or bare type names, messages '
         'empty / one line / multi-line / containing ": " / leading spaces; (b) generated modules raising built-in '
@@ -326,7 +326,7 @@ def cleanup():
 
 def run(ctx):
     try:
-        explore_cases(ctx, gen, check, {'quick': 8000, 'thorough': 100000}[ctx.tier], 'tb', shrink)
+        explore_cases(ctx, gen, check, {'quick': 12000, 'thorough': 200000}[ctx.tier], 'tb', shrink)
     finally:
         cleanup()
 
